@@ -24,7 +24,15 @@
         EventSender      | NOTHING ("ignore the cancel")   | –  ⇒ the shortcut's Canceled survives: defect F8
                          |                                 |    (fixed: `send` does not use the shortcut)
 
-  One step per line of that table; `Cfg.f8` switches the fix (main model: `fixed`).
+        while UNWINDING (`thread::panicking()`): a `Drop` impl on the coroutine's stack may call these APIs again.
+        `check_cancel` then does NOT raise a second panic, but it still runs `get_co_para()` BEFORE the panicking
+        test – that is the code's rule (`Cfg.clr`), and the only consumer for
+        yield_with shortcut while unwinding, EventSource = Yield (a `Drop` that calls `yield_now()`):
+                         | check_cancel: get_co_para, no panic | –
+        (Sleep / Park in a `Drop` also have their own consumer after `yield_with`.)
+
+  One step per line of that table; `Cfg.f8` switches the fix of F8 (main model: `fixed`), `Cfg.clr = false` is the
+  seeded change C15_a (`get_co_para` moved inside `if !thread::panicking()`).
 -/
 namespace MayVerif.Local
 
@@ -39,9 +47,12 @@ notation "Val" => Nat
 
 structure Cfg where
   f8 : Bool       -- EventSender::send does not take the user-space cancel shortcut
+  clr : Bool      -- check_cancel clears `para` before it looks at thread::panicking()
   deriving DecidableEq, Repr
-def fixed : Cfg := ⟨true⟩
-def pinned : Cfg := ⟨false⟩
+def fixed : Cfg := ⟨true, true⟩
+def pinned : Cfg := ⟨false, true⟩
+/-- the seeded change C15_a: `get_co_para()` only inside `if !thread::panicking()` -/
+def seededC15a : Cfg := ⟨true, false⟩
 
 inductive Para | canceled | timedOut
   deriving DecidableEq, Repr
@@ -54,7 +65,9 @@ inductive Wake | unpark | timer | cancel
 
 inductive Pc
   | idle | run | sendChk
-  | yielding (a : Api) | shortcut (a : Api) | parked (a : Api) | resumed (a : Api) | post (a : Api)
+  -- `u = true`: the call is made by a `Drop` impl while the coroutine unwinds (it returns to `unwinding`)
+  | yielding (u : Bool) (a : Api) | shortcut (u : Bool) (a : Api) | parked (u : Bool) (a : Api)
+  | resumed (u : Bool) (a : Api) | post (u : Bool) (a : Api)
   | unwinding | dropping | ended
   deriving DecidableEq, Repr
 
@@ -120,37 +133,50 @@ def tstep (cfg : Cfg) (sh : Sh) (c : Nat) (pc : Pc) (e : Env) : Option (Sh × Pc
                                  inits := upd2 sh.inits c k (sh.inits c k + 1),
                                  ownC := upd sh.ownC sh.nextV (some (c, k)) }, .run)
     | .call .send => some (sh, .sendChk)
-    | .call a => some (sh, .yielding a)
+    | .call a => some (sh, .yielding false a)
     | .finish => some (sh, .dropping)
     | .panic => some (sh, .unwinding)
     | _ => none
   | .sendChk =>
     if sh.cancelBit c then some ({ sh with para := upd sh.para (sh.gen c) none }, .unwinding)      -- check_cancel: get_co_para, panic
-    else if cfg.f8 then some (sh, .parked .send) else some (sh, .yielding .send)
-  | .yielding a =>
-    if sh.cancelBit c then some ({ sh with para := upd sh.para (sh.gen c) (some .canceled) }, .shortcut a)
-    else some (sh, .parked a)
-  | .shortcut a =>
+    else if cfg.f8 then some (sh, .parked false .send) else some (sh, .yielding false .send)
+  | .yielding u a =>
+    if sh.cancelBit c then some ({ sh with para := upd sh.para (sh.gen c) (some .canceled) }, .shortcut u a)
+    else some (sh, .parked u a)
+  | .shortcut false a =>
     match a with
     | .send => some (sh, .run)                   -- F8: `yield_back` is a no-op, the bottom half runs, para stays
-    | .park true => some (sh, .post a)           -- `ignore_cancel`: park_timeout's own get_co_para consumes it
+    | .park true => some (sh, .post false a)     -- `ignore_cancel`: park_timeout's own get_co_para consumes it
     | _ => some ({ sh with para := upd sh.para (sh.gen c) none }, .unwinding)   -- check_cancel: get_co_para, Cancel panic
-  | .parked a =>
-    match e with
-    | .wake .unpark => some (sh, .resumed a)
-    | .wake .timer => if hasTimer a then some ({ sh with para := upd sh.para (sh.gen c) (some .timedOut) }, .resumed a) else none
-    | .wake .cancel =>
-      if cancelRegistered a && sh.cancelBit c then some ({ sh with para := upd sh.para (sh.gen c) (some .canceled) }, .resumed a) else none
-    | _ => none
-  | .resumed a =>
-    if checksCancel a && sh.cancelBit c then some ({ sh with para := upd sh.para (sh.gen c) none }, .unwinding)
-    else some (sh, .post a)
-  | .post a =>
+  | .shortcut true a =>
+    -- while unwinding: check_cancel clears (the code's rule) but does not panic again
     match a with
-    | .park _ => some ({ sh with lastPark := upd sh.lastPark c (some (sh.para (sh.gen c))), para := upd sh.para (sh.gen c) none }, .run)
-    | .sleep | .fastPark => some ({ sh with para := upd sh.para (sh.gen c) none }, .run)
-    | .yieldNow | .send => some (sh, .run)
-  | .unwinding => some (sh, .dropping)
+    | .send | .park true => some (sh, .post true a)
+    | _ => some (if cfg.clr then { sh with para := upd sh.para (sh.gen c) none } else sh, .post true a)
+  | .parked u a =>
+    match e with
+    | .wake .unpark => some (sh, .resumed u a)
+    | .wake .timer => if hasTimer a then some ({ sh with para := upd sh.para (sh.gen c) (some .timedOut) }, .resumed u a) else none
+    | .wake .cancel =>
+      if cancelRegistered a && sh.cancelBit c then some ({ sh with para := upd sh.para (sh.gen c) (some .canceled) }, .resumed u a) else none
+    | _ => none
+  | .resumed false a =>
+    if checksCancel a && sh.cancelBit c then some ({ sh with para := upd sh.para (sh.gen c) none }, .unwinding)
+    else some (sh, .post false a)
+  | .resumed true a =>
+    if checksCancel a && sh.cancelBit c then some (if cfg.clr then { sh with para := upd sh.para (sh.gen c) none } else sh, .post true a)
+    else some (sh, .post true a)
+  | .post u a =>
+    let back : Pc := if u then .unwinding else .run
+    match a with
+    | .park _ => some ({ sh with lastPark := upd sh.lastPark c (some (sh.para (sh.gen c))), para := upd sh.para (sh.gen c) none }, back)
+    | .sleep | .fastPark => some ({ sh with para := upd sh.para (sh.gen c) none }, back)
+    | .yieldNow | .send => some (sh, back)
+  | .unwinding =>
+    match e with
+    | .call .send => none
+    | .call a => some (sh, .yielding true a)       -- a `Drop` impl calls a blocking API during the unwind
+    | _ => some (sh, .dropping)
   | .dropping =>
     match e with
     | .drop toPool => some ({ sh with freed := upd sh.freed c (sh.freed c + 1), pool := if toPool then sh.pool ++ [sh.gen c] else sh.pool }, .ended)
